@@ -15,6 +15,8 @@ where
             return None;
         }
         let reader = self.base.region().create_reader();
+        #[cfg(anydb_verif)]
+        crate::verif::access("raw_ro:collect_one", &reader, HEADER_OFFSET + index * size_of::<T>(), size_of::<T>());
         Some(unsafe {
             S::read_from_ptr(
                 reader.prefixed(HEADER_OFFSET).as_ptr(),
@@ -34,6 +36,8 @@ where
         buf.reserve(to - from);
         if S::IS_NATIVE_LAYOUT {
             let reader = self.base.region().create_reader();
+            #[cfg(anydb_verif)]
+            crate::verif::access("raw_ro:read_into_native", &reader, HEADER_OFFSET + from * size_of::<T>(), (to - from) * size_of::<T>());
             let src = unsafe {
                 std::slice::from_raw_parts(
                     reader
